@@ -22,6 +22,42 @@ EXPECT = [
 ]
 
 
+# every loop form x {return a value, break, continue} x nesting inside an if / an inner loop: the expected
+# result is known by construction (the property's own rule)
+LOOPS = [
+    ("for x in [1, 2, 3]", "x", [1, 2, 3]), ("for k in {\"a\": 5}", "k", None), ("for k, x in {\"a\": 5}", "x", [5]),
+    ("for x = 1; x < 4; x++", "x", [1, 2, 3]), ("x = 0; for x < 3", "(x = x + 1)", None), ("x = 0; for", "(x = x + 1)", None),
+]
+
+
+def product():
+    out = []
+    for head, var, vals in LOOPS:
+        name = head.split("{")[0][:24].strip()
+        if vals is not None:
+            first = vals[0]
+            pre, loop = ("", head) if ";" not in head or head.startswith("for x =") else (head.split(";")[0] + "; ", head.split(";", 1)[1].strip())
+            out.append({"src": "func f() { %s%s { return %s * 10 }; return -1 }\nf()" % (pre, loop, var), "field": "result", "want": "i:%d" % (first * 10),
+                        "why": "return yields its value from inside `%s`" % name})
+            out.append({"src": "func f() { %s%s { if true { for y in [7] { return [%s, y] } } }; return -1 }\nf()" % (pre, loop, var), "field": "result",
+                        "want": "[i:%d,i:7]" % first, "why": "return yields its value from nested blocks and loops inside `%s`" % name})
+            out.append({"src": "r = []; %s%s { if %s == %d { break }; r += %s }; r" % (pre, loop, var, vals[-1], var), "field": "result",
+                        "want": "[" + ",".join("i:%d" % v for v in vals[:-1]) + "]", "why": "break leaves `%s`" % name})
+            out.append({"src": "r = []; %s%s { if %s == %d { continue }; r += %s }; r" % (pre, loop, var, vals[0], var), "field": "result",
+                        "want": "[" + ",".join("i:%d" % v for v in vals[1:]) + "]", "why": "continue skips the rest of the body of `%s`" % name})
+    out.append({"src": "func f() { for k in {\"a\": 5} { return k + \"!\" }; return \"none\" }\nf()", "field": "result", "want": "s:6121",
+                "why": "return yields its value from a key-only for-in over a map"})
+    out.append({"src": "func f() { x = 0; for x < 3 { x = x + 1; if x == 2 { return x * 10 } }; return -1 }\nf()", "field": "result", "want": "i:20",
+                "why": "return yields its value from a conditional loop"})
+    out.append({"src": "func f() { x = 0; for { x = x + 1; if x == 2 { return [x] } }; return -1 }\nf()", "field": "result", "want": "[i:2]",
+                "why": "return yields its value from an endless loop"})
+    out.append({"src": "func f() { for k, v in {\"a\": 5} { switch v {\ncase 5: return [k, v]\n} }; return -1 }\nf()", "field": "result", "want": "[s:61,i:5]",
+                "why": "return from a switch inside a two-variable for-in over a map"})
+    out.append({"src": "func f() { for k, v in {\"a\": 5} { try { throw \"x\" } catch e { return v + 1 } }; return -1 }\nf()", "field": "result", "want": "i:6",
+                "why": "return from a catch block inside a two-variable for-in over a map"})
+    return out
+
+
 def run(tier, seed, replay=None):
     return interpcheck.run_interp_check(
         "C08", "c08", ("result", "trace"), {"quick": 6000, "thorough": 150000}, tier, seed,
@@ -29,4 +65,4 @@ def run(tier, seed, replay=None):
              "functions, with break/continue/return at random positions and conditions drawn from every truthiness class "
              "(nil, booleans, zero/non-zero ints and floats, empty/non-empty/numeric strings, slices, maps); compared: result "
              "and probe trace; non-trivial = distinct source with a non-empty trace",
-        design_ref="DESIGN.md §4 C08", expectations=EXPECT)
+        design_ref="DESIGN.md §4 C08", expectations=EXPECT + product())
